@@ -33,6 +33,9 @@ Streams
   interleave   lazy Contractions (2-3 terms, Tensor + Gaussian) whose terms' inputs interleave, aligned to EVERY
                permutation of the union: .inputs == names exactly (alignT_keys_full), value by name AND by
                positional call; funsor.symbolic functions called positionally
+  stack        Stack / Cat of Tensors (tensor.py eager_stack_homogeneous / eager_cat_homogeneous -> align_tensor):
+               parts listing the same inputs in every relative order, equal / mixed sizes, event ranks 0-2;
+               every named point vs the part's own entry
   index        ravel / unravel of the model vs numpy on a box
 """
 import itertools
@@ -1388,6 +1391,33 @@ def scan_realign_callers():
     return sorted(out)
 
 
+def scan_tensor_callers():
+    """Inside tensor.py: the functions that call align_tensor / align_tensors, and the source form of
+    align_tensor's guards (its assertions and its early-return comparison)."""
+    import ast
+    from ..common import REPO
+    tree = ast.parse((REPO / "funsor" / "tensor.py").read_text())
+    callers, guards = set(), []
+
+    def visit(node, fn):
+        for ch in ast.iter_child_nodes(node):
+            nfn = ch.name if isinstance(ch, (ast.FunctionDef, ast.ClassDef)) else None
+            cur = (fn + "." + nfn) if (fn and nfn) else (nfn or fn)
+            if isinstance(ch, ast.Call):
+                name = ch.func.id if isinstance(ch.func, ast.Name) else (
+                    ch.func.attr if isinstance(ch.func, ast.Attribute) else None)
+                if name in ("align_tensors", "align_tensor"):
+                    callers.add(fn or "<module>")
+            visit(ch, cur)
+    visit(tree, None)
+    for node in ast.walk(tree):
+        if isinstance(node, ast.FunctionDef) and node.name == "align_tensor":
+            for st in node.body:
+                if isinstance(st, (ast.Assert, ast.If)):
+                    guards.append(ast.unparse(st).split("\n")[0].replace('"', "'"))
+    return sorted(callers), guards
+
+
 # callers with a stream in this harness
 COVERED_CALLERS = {"op_factory.eager_tensor_made_op": "makeop", "gaussian.align_gaussian": "classes (Gaussian)"}
 
@@ -1402,6 +1432,14 @@ def extract(ctx):
              "namespace FV.Gen.C19Callers\n\n"
              "def realignCallers : List String :=\n  [" + ",\n   ".join(f'"{c}"' for c in fns) + "]\n\n"
              "end FV.Gen.C19Callers\n")
+    tcallers, guards = scan_tensor_callers()
+    ctx.extra["tensor_callers"] = tcallers
+    body2 = body2.replace("end FV.Gen.C19Callers\n",
+                          "/-- inside tensor.py: functions calling align_tensor / align_tensors -/\n"
+                          "def tensorCallers : List String :=\n  [" + ", ".join(f'"{c}"' for c in tcallers) + "]\n\n"
+                          "/-- source form of align_tensor's guards: assertions and `if` heads, in order -/\n"
+                          "def alignTensorGuards : List String :=\n  [" + ",\n   ".join(f'"{g}"' for g in guards) + "]\n\n"
+                          "end FV.Gen.C19Callers\n")
     out2 = LEAN / "FunsorVerif" / "Gen" / "C19Callers.lean"
     if not out2.exists() or out2.read_text() != body2:
         out2.write_text(body2)
@@ -1870,6 +1908,106 @@ def interleave_stream(ctx, n_rounds):
 
 
 # ------------------------------------------------------------------------------------------
+# stream: Stack / Cat of Tensors (tensor.py eager_stack_homogeneous / eager_cat_homogeneous)
+# ------------------------------------------------------------------------------------------
+
+def py_stack_snippet(c):
+    return f"""
+# C19 replay: Stack / Cat of Tensors whose parts list the same inputs in different orders
+import itertools, numpy as np, funsor
+from collections import OrderedDict
+from funsor import Bint, Tensor
+from funsor.terms import Stack, Cat
+funsor.set_backend("numpy")
+c = {c!r}
+sizes, es = c["sizes"], c["es"]
+parts = []
+for n, keys in enumerate(c["parts"]):
+    shape = [sizes[k] if k != "t" else c["tsizes"][n] for k in keys] + es
+    parts.append(Tensor(np.arange(float(np.prod(shape))).reshape(shape) + 1000 * n,
+                        OrderedDict((k, Bint[sizes[k] if k != "t" else c["tsizes"][n]]) for k in keys)))
+s = Stack("t", tuple(parts)) if c["kind"] == "stack" else Cat("t", tuple(parts))
+names = sorted(sizes)
+FAILS = not isinstance(s, Tensor)
+off = 0
+for n, (p, keys) in enumerate(zip(parts, c["parts"])):
+    tn = 1 if c["kind"] == "stack" else c["tsizes"][n]
+    for tv in range(tn):
+        for pt in itertools.product(*[range(sizes[k]) for k in names]):
+            env = dict(zip(names, pt))
+            penv = dict(env, t=tv) if c["kind"] == "cat" else env
+            e = p.data[tuple(penv[k] for k in keys)]
+            senv = dict(env, t=(n if c["kind"] == "stack" else off + tv))
+            g = s.data[tuple(senv[k] for k in s.inputs)]
+            FAILS = FAILS or not np.array_equal(g, e)
+    off += tn
+print("inputs", list(getattr(s, "inputs", [])), "FAILS", FAILS)
+"""
+
+
+def stack_stream(ctx, n):
+    from funsor.terms import Stack, Cat
+    rng = ctx.rng
+    for it in range(n):
+        kind = "stack" if it % 2 == 0 else "cat"
+        nk = rng.choice([2, 2, 3])
+        names = rng.sample(NAMES, nk)
+        eq = rng.random() < 0.7
+        sizes = {k: (2 if eq else rng.choice([2, 3])) for k in names}
+        es = rng.choice([[], [2], [2, 2]])
+        nparts = rng.choice([2, 2, 3])
+        part_keys, tsizes = [], []
+        for _ in range(nparts):
+            keys = rng.sample(names, nk if rng.random() < 0.8 else rng.randint(1, nk))
+            if kind == "cat":
+                keys.insert(rng.randint(0, len(keys)), "t")
+            part_keys.append(keys)
+            tsizes.append(rng.choice([1, 2, 3]) if kind == "cat" else 1)
+        c = {"stream": "stack", "kind": kind, "sizes": sizes, "es": es, "parts": part_keys, "tsizes": tsizes}
+        parts = []
+        for i, keys in enumerate(part_keys):
+            shape = [sizes[k] if k != "t" else tsizes[i] for k in keys] + es
+            parts.append(Tensor(np.arange(float(np.prod(shape))).reshape(shape) + 1000 * i,
+                                OrderedDict((k, Bint[sizes[k] if k != "t" else tsizes[i]]) for k in keys)))
+        r = run(lambda: Stack("t", tuple(parts)) if kind == "stack" else Cat("t", tuple(parts)))
+        ctx.count(f"stack:kind={kind}")
+        ctx.count("stack:orders=" + ("differ" if len({tuple(k for k in ks if k != "t") for ks in part_keys}) > 1 else "same"))
+        if r[0] == "raise" or not isinstance(r[1], Tensor):
+            ctx.count("stack:declined-or-lazy")
+            ctx.case()
+            continue
+        st = r[1]
+        sk = list(st.inputs)
+        bad = None
+        off = 0
+        for i, (p, keys) in enumerate(zip(parts, part_keys)):
+            tn = 1 if kind == "stack" else tsizes[i]
+            for tv in range(tn):
+                for pt in itertools.product(*[range(sizes[k]) for k in names]):
+                    env = dict(zip(names, pt))
+                    penv = dict(env, t=tv)
+                    e = np.asarray(p.data)[tuple(penv[k] for k in keys)]
+                    senv = dict(env, t=(i if kind == "stack" else off + tv))
+                    if any(k not in senv for k in sk):
+                        bad = (f"inputs {sk}", None, None)
+                        break
+                    g = np.asarray(st.data)[tuple(senv[k] for k in sk)]
+                    if not np.array_equal(g, e):
+                        bad = (senv, e.tolist(), g.tolist())
+                        break
+                if bad:
+                    break
+            if bad:
+                break
+            off += tn
+        if bad:
+            ctx.fail("input", f"C19.{kind}-of-tensors-value", witness=dict(c, point=str(bad[0])), python=py_stack_snippet(c),
+                     expected=str(bad[1]), got=str(bad[2]))
+            continue
+        ctx.case(nontrivial_key=("stack", str(c)))
+
+
+# ------------------------------------------------------------------------------------------
 # stream: funsor.make_op ops (op_factory.eager_tensor_made_op): to_data by name, raw fn, to_funsor
 # ------------------------------------------------------------------------------------------
 
@@ -2099,6 +2237,7 @@ def correspond(ctx):
     classes_stream(ctx, 16 if quick else 200)
     makeop_stream(ctx, 400 if quick else 3000)
     interleave_stream(ctx, 6 if quick else 40)
+    stack_stream(ctx, 300 if quick else 3000)
     ctx.exhaustive = True
     ctx.assumptions.append("numpy reshape / transpose / broadcast_to are modelled by their index-level "
                            "specification (row-major ravel/unravel), not verified")
@@ -2143,3 +2282,6 @@ def search(ctx, broken):
     if found():
         return
     interleave_stream(ctx, 20)
+    if found():
+        return
+    stack_stream(ctx, 3000)
